@@ -218,7 +218,117 @@ def rays(method_kernel, n0, n1, r, c):
     return out
 
 
+# ---- Spec/Interp.v transcribed (paths as positions, first valid pixel, median, second lowest |d|): the outputs the
+# Spec allows for a case; written from the Spec, not from the kernels (directions as (drow, dcol), rays followed
+# until they leave the map, two passes, each from the map before the pass)
+DIRS8_RC = [(1, 0), (1, -1), (0, -1), (-1, -1), (-1, 0), (-1, 1), (0, 1), (1, 1)]
+DIRS16_RC = [(2, 0), (2, -1), (2, -2), (1, -2), (0, -2), (-1, -2), (-2, -2), (-2, -1),
+             (-2, 0), (-2, 1), (-2, 2), (-1, 2), (0, 2), (1, 2), (2, 2), (2, 1)]
+
+
+def _quot2(x):
+    return x // 2 if x >= 0 else -((-x) // 2)
+
+
+def _swapped(a, b, m):
+    return (m & ~(1 << a)) | (1 << b)
+
+
+def _first_valid(path, n0, n1, mask):
+    i = 1
+    while True:
+        r, c = path(i)
+        if not (0 <= r < n0 and 0 <= c < n1):
+            return None
+        if (mask[r][c] & INV) == 0:
+            return (r, c)
+        i += 1
+
+
+def _contributions(kind, dirs, n0, n1, d, m, r, c):
+    out = []
+    for dr, dc in dirs:
+        if kind == "half":
+            p = _first_valid(lambda i: (r + _quot2(dr * i), c + _quot2(dc * i)), n0, n1, m)
+        else:
+            p = _first_valid(lambda i: (r + dr * i, c + dc * i), n0, n1, m)
+        out.append(None if p is None else d[p[0]][p[1]])
+    return [x for x in out if x is not None]
+
+
+def _median(fin):
+    s = sorted(fin)
+    n = len(s)
+    return (s[n // 2 - 1] + s[n // 2]) / 2 if n % 2 == 0 else s[n // 2]
+
+
+def spec_outputs(cs, method):
+    """(allowed disparities per pixel: a set, mask per pixel) according to Spec/Interp.v; None when the case is
+    outside the Spec's domain (a pixel carrying both bits 8 and 9)"""
+    n0, n1, off = cs["n0"], cs["n1"], cs["offset"]
+    d0, m0 = cs["disp"], cs["mask"]
+    if any((m0[r][c] & OCC) and (m0[r][c] & MIS) for r in range(n0) for c in range(n1)):
+        return None
+    d1 = [row[:] for row in d0]
+    m1 = [row[:] for row in m0]
+    if method == "mc-cnn":
+        for r in range(n0):
+            for c in range(n1):
+                if m0[r][c] & OCC:
+                    p = _first_valid(lambda i: (r, c - i), n0, n1, m0) or _first_valid(lambda i: (r, c + i), n0, n1, m0)
+                    if p is not None:
+                        d1[r][c], m1[r][c] = d0[p[0]][p[1]], _swapped(8, 4, m0[r][c])
+        d2 = [[{v} for v in row] for row in d1]
+        m2 = [row[:] for row in m1]
+        for r in range(n0):
+            for c in range(n1):
+                if m1[r][c] & MIS:
+                    fin = _contributions("half", DIRS16_RC, n0, n1, d1, m1, r, c)
+                    if fin:
+                        d2[r][c], m2[r][c] = {_median(fin)}, _swapped(9, 5, m1[r][c])
+                if off > 0 and (r < off or r >= n0 - off or c < off or c >= n1 - off):
+                    m2[r][c] = 1
+        return d2, m2
+    for r in range(n0):
+        for c in range(n1):
+            if m0[r][c] & MIS:
+                touches = any(m0[rr][cc] & OCC for rr in range(max(0, r - 1), min(n0 - 1, r + 1) + 1)
+                              for cc in range(max(0, c - 1), min(n1 - 1, c + 1) + 1))
+                if touches:
+                    m1[r][c] = _swapped(9, 8, m0[r][c])
+                else:
+                    fin = _contributions("straight", DIRS8_RC, n0, n1, d0, m0, r, c)
+                    if fin:
+                        d1[r][c], m1[r][c] = _median(fin), _swapped(9, 5, m0[r][c])
+    d2 = [[{v} for v in row] for row in d1]
+    m2 = [row[:] for row in m1]
+    for r in range(n0):
+        for c in range(n1):
+            if m1[r][c] & OCC:
+                fin = _contributions("straight", DIRS8_RC, n0, n1, d1, m1, r, c)
+                if len(fin) >= 2:
+                    second = sorted(abs(x) for x in fin)[1]
+                    d2[r][c], m2[r][c] = {x for x in fin if abs(x) == second}, _swapped(8, 4, m1[r][c])
+    return d2, m2
+
+
 def check_property(ctx, cs, method, d1, m1):
+    spec = spec_outputs(cs, method)
+    if spec is not None:
+        sd, sm = spec
+        for r in range(cs["n0"]):
+            for c in range(cs["n1"]):
+                if m1[r][c] != sm[r][c] or d1[r][c] not in sd[r][c]:
+                    ctx.violation("not_as_spec_" + method.replace("-", "_"),
+                                  f"{method}, map {cs['n0']}x{cs['n1']}: pixel ({r},{c}) mask {cs['mask'][r][c]} "
+                                  f"disparity {cs['disp'][r][c]} ends with mask {m1[r][c]} disparity {d1[r][c]}; "
+                                  f"Spec/Interp.v allows mask {sm[r][c]} disparity in "
+                                  f"{sorted(map(str, sd[r][c]))}",
+                                  {"case": case_to_json(cs), "method": method})
+                    break
+            else:
+                continue
+            break
     n0, n1, off = cs["n0"], cs["n1"], cs["offset"]
     d0, m0 = cs["disp"], cs["mask"]
     replay = {"case": case_to_json(cs), "method": method}
@@ -371,6 +481,8 @@ def run(ctx):
                            "Gen.Callbacks validation_run call structure = the one validation_interp_run models "
                            "(C14_validation_run_calls, reflexivity on the regenerated file)"]
     ctx.stats["spec_clauses_checked_on_impl"] = [
+        "outputs of the real code are among those Spec/Interp.v allows (independent transcription of the Spec: first "
+        "valid pixel along each path, median, second lowest |d|, bit swaps, border)",
         "pixels without bit 8/9 keep disparity and mask", "flag swap 8->4 / 9->5 / sgm 9->8->4, or pixel untouched",
         "filled value finite and within [min,max] of the valid disparities", "filled => a valid pixel in sight along "
         "the kernel's directions (two for sgm occlusion)", "mc-cnn occlusion source = first valid left else right",
